@@ -5,8 +5,9 @@
    (a) the panic-site ledger is complete: every potential panic site that the translator finds in the
        21 anchored files NOW (gen/PanicSites.v: unwrap / expect / unreachable / panic / assert, index
        and slice expressions, unchecked + - * << >> / %, panicking std calls) has a hand-reviewed entry;
-       the entry is not OPEN unless the site is one of the three named in `known_open` (the u16 control
-       counter, open finding of C01), and a `lemma:` reason cites a theorem of this development;
+       the entry is not OPEN (no undischarged obligation is left: the three sites of finding F18, the
+       u16 control counter, were repaired by repo commit 235518f), and a `lemma:` reason cites a theorem
+       of this development;
    (b) the logic cannot spin, every fuelled loop has enough fuel, and the guards of the sites the
        ledger discharges by lemma hold in every reachable model state (link parser / read buffer /
        assembler / event counters / range and iterator indices).
@@ -25,15 +26,15 @@ Open Scope N_scope.
 
 Theorem C01_ledger_complete : forall s, In s panic_sites ->
   exists e, In e panic_ledger /\ le_key e = ps_key s
-            /\ (le_class e = COpen -> known_open s = true)
+            /\ le_class e <> COpen
             /\ (forall n, le_class e = CLemma n -> In n discharging_lemmas).
 Proof. exact ledger_complete. Qed.
 Print Assumptions C01_ledger_complete.
 
-(* exactly three sites are left OPEN (the three `*num_controls += 1` of control/collection.rs) *)
+(* no site is left OPEN *)
 Theorem C01_open_obligations :
   length (filter (fun s =>
-    existsb (fun e => (le_key e =? ps_key s)%N && class_open (le_class e)) panic_ledger) panic_sites) = 3%nat.
+    existsb (fun e => (le_key e =? ps_key s)%N && class_open (le_class e)) panic_ledger) panic_sites) = 0%nat.
 Proof. exact open_sites_check. Qed.
 Print Assumptions C01_open_obligations.
 
